@@ -241,6 +241,7 @@ type Env struct {
 	Vars data.Map          // params / lets / loop variables (absent = undefined)
 	IJ   data.Map          // nil = no injected data
 	Loop map[string][2]int // loop variable -> (index, last index)
+	Miss *[]string         // if set, names looked up that nothing binds are appended here
 }
 
 type undef = data.Undefined
@@ -620,6 +621,9 @@ func (env *Env) evalRef(e *E) (data.Value, status) {
 		v, ok := env.Vars[e.Op]
 		if !ok {
 			cur = undef{}
+			if env.Miss != nil {
+				*env.Miss = append(*env.Miss, e.Op)
+			}
 		} else {
 			cur = v
 		}
